@@ -70,7 +70,10 @@ def is_log_call(st) -> bool:
     if not (isinstance(st, ast.Expr) and isinstance(st.value, ast.Call) and isinstance(st.value.func, ast.Attribute)):
         return False
     f = st.value.func
-    return f.attr in LOG_METHODS and "log" in ast.unparse(f.value).lower()
+    recv = f.value
+    last = recv.attr if isinstance(recv, ast.Attribute) else recv.id if isinstance(recv, ast.Name) else \
+        ast.unparse(recv.func) if isinstance(recv, ast.Call) else ""
+    return f.attr in LOG_METHODS and last.lower().lstrip("_") in ("log", "logger", "logging", "logging.getlogger")
 
 
 def is_noise(st) -> bool:
